@@ -37,7 +37,7 @@ def required_counters(tier):
     return {'judged:operator-consistency': 200, 'judged:construction': 200, 'judged:mask-placement': 100, 'judged:commute-rotate': 50,
             'judged:commute-to_sky': 50, 'judged:annulus-membership': 100, 'judged:annulus-area': 50,
             'monitor:contains:CompoundPixelRegion': 100, 'monitor:to_mask:CompoundPixelRegion:center': 50, 'judged:sky-compound-contains': 20, 'history-steps': 30,
-            'unprojectable-sky-positions': 50, 'sky-annulus-cases': 50}
+            'unprojectable-sky-positions': 50, 'sky-annulus-cases': 20, 'sky-compounds-of-mixed-frames': 20, 'rotations-about-an-operand-centre': 20}
 
 
 def setup(obs):
@@ -74,6 +74,16 @@ def generate(rng, tier, shard, nshards):
             yield {'lane': 'annulus-lattice', 'cls': rng.choice(gen.ANNULI_PIX), 'cx': rng.randint(-20, 20), 'cy': rng.randint(-20, 20),
                    'ro': rng.choice([5, 10, 13, 25]), 'ri': rng.choice([1, 2, 3, 4]), 'include': rng.choice(['absent', False]),
                    'angle_deg': rng.choice([0, 90, 180, 270])}
+            continue
+        if 0.06 <= r < 0.09:
+            # a compound built on the sky from operands given in DIFFERENT celestial frames
+            w = gen.wcs_spec(rng)
+            f1 = rng.choice(gen.SKY_FRAMES)
+            f2 = rng.choice([f for f in gen.SKY_FRAMES if f != f1])
+            mk = lambda f: {'cls': rng.choice(gen.SKY_SIMPLE + gen.SKY_ANNULI), 'dx': rng.uniform(-60, 60), 'dy': rng.uniform(-60, 60),
+                            'size_deg': gen.logu(rng, 10, 80) * w['scale'], 'seed': rng.randrange(2 ** 31), 'frame': f}
+            yield {'lane': 'sky-compound-mixed-frames', 'wcs': w, 'r1': mk(f1), 'r2': mk(f2), 'op': rng.choice(['and', 'or', 'xor']),
+                   'how': rng.choice(['ctor', 'operator']), 'include': rng.choice(['absent', 'absent', False]), 'rs': rng.randrange(2 ** 31)}
             continue
         if r < 0.12:
             # a sky annulus and the sky shapes of its two outlines, on a rotated / scaled / flipped image
@@ -193,6 +203,8 @@ def run_case(case, obs):
         return run_annulus(case, obs)
     if case['lane'] == 'sky-annulus':
         return run_sky_annulus(case, obs)
+    if case['lane'] == 'sky-compound-mixed-frames':
+        return run_sky_mixed(case, obs)
     spec = case['region']
     built = build_with_operators(spec)
     comp, a, b, opname = built
@@ -241,6 +253,13 @@ def run_case(case, obs):
     A = S.build(case['angle'])
     prng = random.Random(case['rs'])
     pivot = PixCoord(prng.uniform(0, 300), prng.uniform(0, 300))
+    if prng.random() < 0.35:
+        # rotation about the centre of one of the operands themselves (the most natural pivot for a user)
+        leaves = [n for n in walk(comp) if hasattr(n, 'center') and n.center.isscalar]
+        if leaves:
+            lf = prng.choice(leaves)
+            pivot = PixCoord(lf.center.x, lf.center.y) if prng.random() < 0.5 else lf.center
+            obs.count('rotations-about-an-operand-centre')
     rc = comp.rotate(pivot, A)
     ok = type(rc) is type(comp) and rc.operator is comp.operator and rc.region1 == comp.region1.rotate(pivot, A) \
         and rc.region2 == comp.region2.rotate(pivot, A) and dict(rc.meta) == dict(comp.meta) and dict(rc.visual) == dict(comp.visual)
@@ -310,6 +329,48 @@ def run_annulus_lattice(case, obs):
     expm = np.logical_xor(place(mi, m.bbox), place(mo, m.bbox)).astype(int)
     obs.check(bool(np.array_equal(np.asarray(m.data), expm)), 'annulus-mask-not-outer-minus-inner', f'{cls}: centre mask differs from outer mask minus inner mask (lattice case)',
               'annulus-membership')
+
+
+def run_sky_mixed(case, obs):
+    """a sky compound of operands in different frames: membership = operator(operands' own answers), conversion componentwise."""
+    import regions
+    from vmon.checks.c06 import build_sky_leaf
+    w = S.build(case['wcs'])
+    a, b = build_sky_leaf(case['r1'], w), build_sky_leaf(case['r2'], w)
+    fa, fb = S.fingerprint(a), S.fingerprint(b)
+    op = S._OPS[case['op']]
+    if case['how'] == 'operator' and case['include'] == 'absent':
+        comp = {'and': lambda: a & b, 'or': lambda: a | b, 'xor': lambda: a ^ b}[case['op']]()
+    else:
+        kw = {} if case['include'] == 'absent' else {'meta': regions.RegionMeta({'include': case['include']})}
+        comp = regions.CompoundSkyRegion(a, b, op, **kw)
+    obs.count('sky-compounds-of-mixed-frames')
+    obs.check(S.fingerprint(a) == fa and S.fingerprint(b) == fb, 'compound-operation-mutates', 'building a sky compound changed its operands', 'construction')
+    obs.check(S.fingerprint(comp.region1) == fa and S.fingerprint(comp.region2) == fb, 'operator-construction-wrong',
+              f'sky compound of a {type(a).__name__} ({case["r1"]["frame"]}) and a {type(b).__name__} ({case["r2"]["frame"]}) does not hold its operands as given', 'construction')
+    pa = a.to_pixel(w)
+    q = {'kind': 'mixed', 'form': '1d', 'shape': None, 'dtype': 'float64', 'n': 160, 'rs': case['rs']}
+    pc = c01.make_queries(pa, q)
+    pb = b.to_pixel(w)
+    pc2 = c01.make_queries(pb, dict(q, rs=case['rs'] + 1))
+    px = np.concatenate([np.asarray(pc.x, dtype=float), np.asarray(pc2.x, dtype=float)])
+    py = np.concatenate([np.asarray(pc.y, dtype=float), np.asarray(pc2.y, dtype=float)])
+    sc = w.pixel_to_world(px, py)
+    ok = np.isfinite(np.asarray(sc.data.lon.value)) & np.isfinite(np.asarray(sc.data.lat.value))
+    if not ok.any():
+        return
+    sc = w.pixel_to_world(px[ok], py[ok])
+    got = np.asarray(comp.contains(sc, w))
+    exp = S.op_logic(op)(np.asarray(a.contains(sc, w)), np.asarray(b.contains(sc, w)))
+    if not dict.get(comp.meta, 'include', True):
+        exp = np.logical_not(exp)
+    obs.check(got.shape == exp.shape and bool(np.array_equal(got, exp)), 'sky-compound-membership-not-operator-of-operands',
+              f'{case["op"]} of a {type(a).__name__} in {case["r1"]["frame"]} and a {type(b).__name__} in {case["r2"]["frame"]}: contains differs from the '
+              f'operator applied to the operands\' answers at {int(np.sum(got != exp)) if got.shape == exp.shape else "?"} of {exp.size} positions', 'sky-compound-contains')
+    pcomp = comp.to_pixel(w)
+    okp = type(pcomp).__name__ == 'CompoundPixelRegion' and pcomp.region1 == pa and pcomp.region2 == pb and pcomp.operator is op
+    obs.check(okp, 'compound-to_pixel-not-componentwise', f'{case["op"]}: to_pixel() of a mixed-frame sky compound does not equal the compound of the converted operands',
+              'commute-to_sky')
 
 
 def run_sky_annulus(case, obs):
